@@ -162,7 +162,11 @@ def realise(case, seed=0):
         F, G = ufl.Coefficient(V), coef("P1")
         c1 = conditional(ufl.lt(F, 0.5), 2, 0.5)
         c2 = conditional(ufl.And(ufl.gt(x[0], 0.25), ufl.Not(ufl.le(G, 1.5))), inner(u, v), 3 * inner(u, v))
-        form = (c1 * inner(u, v) + c2) * dX
+        # integer-valued conditionals in quotients (UFL's / is true division): a piecewise-constant coefficient
+        # kappa in {1, 4} used as 1/kappa, and an integer-valued conditional halved
+        kappa = conditional(ufl.gt(x[0], 0.25), 1, 4)
+        c3 = inner(u, v) / kappa + (conditional(ufl.lt(G, 0.5), 1, 3) / 2) * inner(u, v)
+        form = (c1 * inner(u, v) + c2 + c3) * dX
     elif term == "absmax":
         F, G = ufl.Coefficient(V), coef("P1")
         form = (abs(F) * inner(u, v) + ufl.max_value(F, G) * inner(u, v) + ufl.min_value(F, 2) * inner(u, v)) * dX
@@ -187,7 +191,15 @@ def realise(case, seed=0):
                            ufl.tan(G / 8), ufl.cosh(K / 2), ufl.tanh(F / 4)]}[term]
         rnd.shuffle(fam)
         pick = fam[:3]
+        if term == "cmathfn":
+            # a real-typed base (part of a coefficient, geometry) raised to a complex literal: the result is complex
+            pick = pick[:2] + [rnd.choice([(2 + ufl.real(G) * ufl.real(G)) ** (0.5 + 1.5j), (3 + x[0] * x[0]) ** 0.5j,
+                                           (1 + ufl.imag(F) * ufl.imag(F)) ** (1 - 0.5j)])]
         form = sum((k + 1) * f_ for k, f_ in enumerate(pick)) * inner(u, v) * dX
+    elif term == "cerf":
+        # functions that exist for real arguments only in C (erf, jn), applied to a complex-valued coefficient
+        F = ufl.Coefficient(V)
+        form = (ufl.erf(F / 2) + 2 * ufl.bessel_J(1, F / 2)) * inner(u, v) * dX
     elif term == "geo":
         h = ufl.CellDiameter(dom)
         q_ = h * ufl.MinCellEdgeLength(dom) + ufl.MaxCellEdgeLength(dom)
@@ -211,7 +223,8 @@ def realise(case, seed=0):
         K = ufl.Constant(dom)
         form = (inner(ufl.conj(F) * u, v) + ufl.real(G) * inner(u, v) + ufl.imag(G) * K * inner(u, v)
                 + abs(K) * inner(u, v) + inner(grad(u), ufl.conj(K) * grad(v))
-                + (2 + 1j) * G * inner(u, v) + inner(u, (0.5 - 1.5j) * F * v)) * dX      # complex literals as factors, either side
+                + (2 + 1j) * G * inner(u, v) + inner(u, (0.5 - 1.5j) * F * v)           # complex literals as factors, either side
+                + (1 + ufl.imag(x[0]) + 2 * ufl.real(x[gd - 1])) * G * inner(u, v)) * dX   # complex parts of real-typed geometry
     else:
         raise ValueError(term)
     return {"form": form, "exact_ok": rule == "exact", "case": case, "gdim": gd, "tdim": td}
@@ -345,6 +358,10 @@ def realise_expr(item):
         e = grad(grad(f))
     elif term == "absf":
         e = abs(f) * x[0] + ufl.max_value(f, 1)
+    elif term == "condu":
+        # the argument inside both branches of a conditional (and in one branch only)
+        s0 = Fr(3, 8)
+        e = ufl.conditional(ufl.lt(x[0], float(s0)), 2 * u, 3 * u) + ufl.conditional(ufl.gt(f, 0.5), u, 0 * u) * f
     elif term == "fu":
         e = coef("P1") * u
     elif term == "outer":
